@@ -86,7 +86,9 @@ pub(super) unsafe fn sys_enter(
             // The kernel thread consumes on its own (driver's kernel steps).
             ret = to_submit as i32;
         } else if to_submit > 0 {
+            sim.rings[idx].inline = true;
             consumed = sim.consume_and_dispatch(idx, to_submit);
+            sim.rings[idx].inline = false;
             ret = consumed.len() as i32;
         }
         // K4: an enter flushes the overflow list when there is room.
@@ -96,7 +98,10 @@ pub(super) unsafe fn sys_enter(
         if let Some(mut hook) = sim.enter_hook.take() {
             // NOTE: the hook must not lock the simulator.
             let mut ring = std::mem::replace(&mut sim.rings[idx], placeholder_ring());
+            // What the hook completes, completes inline (during submission).
+            ring.inline = true;
             hook(&mut ring, &info);
+            ring.inline = false;
             sim.rings[idx] = ring;
             sim.enter_hook = Some(hook);
             sim.rings[idx].flush_overflow();
@@ -109,6 +114,10 @@ pub(super) unsafe fn sys_enter(
     if flags & abi::ENTER_GETEVENTS != 0 {
         let want = min_complete.min(guard.rings[idx].cq_entries);
         loop {
+            // K13: deferred task work runs now.
+            if guard.rings[idx].flush_deferred() > 0 {
+                guard.rings[idx].flush_overflow();
+            }
             if guard.rings[idx].cq_ready() >= want {
                 break;
             }
@@ -200,6 +209,8 @@ fn placeholder_ring() -> super::SimRing {
         posted: Vec::new(),
         next_seq: 0,
         sync_cancels: 0,
+        deferred: std::collections::VecDeque::new(),
+        inline: false,
     }
 }
 
@@ -294,7 +305,10 @@ impl Sim {
                 let ring = &mut self.rings[idx];
                 match (outcome, target) {
                     (CancelOutcome::Wins, Some(t)) if !t.zc_notif_pending => {
+                        // The target is completed by task work (K13).
+                        let inline = std::mem::replace(&mut ring.inline, false);
                         ring.complete(t.serial, -libc::ECANCELED, 0, false);
+                        ring.inline = inline;
                         ring.complete(serial, 0, 0, false);
                     }
                     (CancelOutcome::Already, Some(_)) | (CancelOutcome::Wins, Some(_)) => {
